@@ -6,7 +6,8 @@ from props.common import TRUSTED_BASE, ASSUMPTIONS as _A
 ID = 'C16'
 LEAN_MODULES = ['HidVerif.Props.C16']
 THEOREMS = ['HidVerif.Props.C16.analysis_sound', 'HidVerif.Props.C16.dropped_is_unreachable', 'HidVerif.Props.C16.exits_reflected',
-            'HidVerif.Hid.Exit.exits_sound', 'HidVerif.Hid.Exit.modes_lt',
+            'HidVerif.Hid.Exit.exits_sound', 'HidVerif.Hid.Exit.modes_lt', 'HidVerif.Props.C16.accepted_function_never_falls_off',
+            'HidVerif.Hid.TC.tcStmt_link', 'HidVerif.Hid.TC.step_link', 'HidVerif.Hid.TC.tcFunc_link',
             'HidVerif.Props.C16.core_entry_never_falls_off', 'HidVerif.Props.C16.core_activation_returns_to_caller']
 TRUSTED = TRUSTED_BASE + ['Hid/ExitModes.lean: model of the exit-mode bookkeeping of blocks.py and an abstract control-flow semantics; tied by '
                           'the exit suite (every block mode of every accepted function recomputed)',
